@@ -63,7 +63,7 @@ Fixpoint stake (segs : inp) (n : N) : res (bytes * inp) :=
   end.
 
 Definition stake1 (i : inp) : res (N * inp) :=
-  let* '(b, i1) := stake i 1 in
+  let* (b, i1) := stake i 1 in
   match b with [t] => Ok (t, i1) | _ => Panic 100 end.
 
 (* io.CopyN(buf, r, n): io.EOF whenever fewer than n bytes arrive *)
@@ -150,16 +150,16 @@ Fixpoint set_chunk (l : list (N * cstate)) (cid : N) (v : cstate) : list (N * cs
 
 (* readBasicHeader (with the 3-byte form recognised by the first byte's 6-bit field) *)
 Definition read_basic_header (i : inp) : res (N * N * inp) :=
-  let* '(t, i1) := stake1 i in
+  let* (t, i1) := stake1 i in
   let cid := t mod 64 in
   let fmt := (t / 64) mod 4 in
   if 1 <? cid then Ok (fmt, cid, i1)
   else
     let first := cid in
-    let* '(t2, i2) := stake1 i1 in
+    let* (t2, i2) := stake1 i1 in
     let cid2 := u32 (64 + t2) in
     if first =? 1 then
-      let* '(t3, i3) := stake1 i2 in
+      let* (t3, i3) := stake1 i2 in
       Ok (fmt, u32 (cid2 + u32 (t3 * 256)), i3)
     else Ok (fmt, cid2, i2).
 
@@ -171,9 +171,9 @@ Definition read_message_header (cid : N) (st : cstate) (fmt : N) (i : inp) : res
   if (c_count st =? 0) && negb (fmt =? F0) && negb ((cid =? CID_PC) && (fmt =? F1)) then Err E_FRESH
   else if negb first && (fmt =? F0) then Err E_EXISTS
   else
-    let* '(p, i1) := stake i (hdr_size fmt) in
+    let* (p, i1) := stake i (hdr_size fmt) in
     let h := c_hdr st in
-    let* '(h1, e1) :=
+    let* (h1, e1) :=
       if fmt <=? F2 then
         match p with
         | p0 :: p1 :: p2 :: q =>
@@ -198,9 +198,9 @@ Definition read_message_header (cid : N) (st : cstate) (fmt : N) (i : inp) : res
         end
       else
         Ok (if first && negb (c_ext st) then set_ts h (u64 (h_ts h + h_delta h)) else h, c_ext st) in
-    let* '(ts2, i2) :=
+    let* (ts2, i2) :=
       if e1 then
-        let* '(t, i2) := stake i1 4 in
+        let* (t, i2) := stake i1 4 in
         match t with
         | [a; b; c; d] => Ok ((ube4 a b c d) mod T31, i2)
         | _ => Panic 3
@@ -220,7 +220,7 @@ Definition read_payload (inchunk cid : N) (st : cstate) (i : inp) : res (option 
   else if h_len h <? gl then Panic 4
   else
     let n := N.min (h_len h - gl) inchunk in
-    let* '(d, i1) := stake i n in
+    let* (d, i1) := stake i n in
     if gl + n =? h_len h then Ok (Some (mk (concat (rev (d :: got)))), set_part st None, i1)
     else Ok (None, set_part st (Some (d :: got, gl + n)), i1).
 
@@ -247,10 +247,10 @@ Definition on_message_arrived (inchunk : N) (m : msg) : res N :=
 
 (* one iteration of the ReadMessage loop *)
 Definition read_chunk (s : rstate) (i : inp) : res (option msg * rstate * inp) :=
-  let* '(fmt, cid, i1) := read_basic_header i in
+  let* (fmt, cid, i1) := read_basic_header i in
   let st := get_chunk (chunks s) cid in
-  let* '(st1, i2) := read_message_header cid st fmt i1 in
-  let* '(om, st2, i3) := read_payload (in_chunk s) cid st1 i2 in
+  let* (st1, i2) := read_message_header cid st fmt i1 in
+  let* (om, st2, i3) := read_payload (in_chunk s) cid st1 i2 in
   let ch := set_chunk (chunks s) cid st2 in
   match om with
   | None => Ok (None, mkrs (in_chunk s) ch, i3)
@@ -261,7 +261,7 @@ Fixpoint read_message (fuel : nat) (s : rstate) (i : inp) : res (msg * rstate * 
   match fuel with
   | O => Err E_FUEL
   | S f =>
-      let* '(om, s1, i1) := read_chunk s i in
+      let* (om, s1, i1) := read_chunk s i in
       match om with
       | Some m => Ok (m, s1, i1)
       | None => read_message f s1 i1
@@ -273,8 +273,8 @@ Fixpoint read_n (fuel : nat) (n : nat) (s : rstate) (i : inp) : res (list msg * 
   match n with
   | O => Ok ([], s, i)
   | S n' =>
-      let* '(m, s1, i1) := read_message fuel s i in
-      let* '(ms, s2, i2) := read_n fuel n' s1 i1 in
+      let* (m, s1, i1) := read_message fuel s i in
+      let* (ms, s2, i2) := read_n fuel n' s1 i1 in
       Ok (m :: ms, s2, i2)
   end.
 
@@ -527,9 +527,9 @@ Definition run_dir (hs : bool) (script : list N) (ms : list msg) : sx :=
   let i0 := cut script stream in
   let hsr : res (sx * inp) :=
     if hs then
-      let* '(c0, i1) := hs_read_c0s0 i0 in
-      let* '(c1, i2) := hs_read_c1s1 i1 in
-      let* '(c2, i3) := hs_read_c2s2 i2 in
+      let* (c0, i1) := hs_read_c0s0 i0 in
+      let* (c1, i2) := hs_read_c1s1 i1 in
+      let* (c2, i3) := hs_read_c2s2 i2 in
       Ok (SL [SB c0; sN (lenN c1); sN (lenN c2); sbool (bytes_eqb c2 (hs_c1s1 (repeat 0 1528)))], i3)
     else Ok (SL [], i0) in
   match hsr with
